@@ -40,6 +40,7 @@ import EPV.Gen.R2StarSCR
 import EPV.Gen.R2StarRCS
 import EPV.Gen.R2StarRCR
 import EPV.Lemmas.Riemann2D
+import EPV.Lemmas.Bridge.SemiSu
 import EPV.Tactics
 
 set_option linter.all false
@@ -58,18 +59,25 @@ theorem c2_pos {g p0 r0 : ℝ} (hg : 1 < g) (hp : 0 < p0) (hr : 0 < r0) : 0 < g 
 theorem comp_rs (p : R2Comp.P) :
     R2Comp.rs p = p.r0 * rhoNum p.g (p.ps / p.p0) / rhoDen p.g (p.ps / p.p0) := by
   simp only [epv_tree, epv_leaf, rhoNum, rhoDen]
+  epv_semi_su_eq
 
 theorem comp_Ms (p : R2Comp.P) (hg : 1 < p.g) (hp : 0 < p.p0) (hr : 0 < p.r0) (hM : 0 ≤ p.M0) :
     R2Comp.Ms p = Real.sqrt ((p.M0 ^ 2 * rhoNum p.g (p.ps / p.p0) - 2 * ((p.ps / p.p0) ^ 2 - 1))
       / (p.ps / p.p0) / rhoDen p.g (p.ps / p.p0)) := by
+  -- the code recomputes the Mach number from the velocity components: put that expression (documented
+  -- form) for M₀ on the right, then both sides agree up to normalisation
+  have hm := recomputed_mach p.M0 (p.g * p.p0 / p.r0) (p.theta0 / 180 * Real.pi) hM (c2_pos hg hp hr)
   simp only [epv_tree, epv_leaf, rhoNum, rhoDen]
-  rw [recomputed_mach _ _ _ hM (c2_pos hg hp hr), Real.rpow_two, Real.rpow_two]
+  conv_rhs => rw [← hm]
+  epv_semi_su_eq
 
 theorem comp_tan (p : R2Comp.P) (hg : 1 < p.g) (hp : 0 < p.p0) (hr : 0 < p.r0) (hM : 0 ≤ p.M0) :
     Real.tan (R2Comp.deflection p) = Real.sqrt (2 * p.g * p.M0 ^ 2 / rhoNum p.g (p.ps / p.p0) - 1)
       * ((p.ps / p.p0 - 1) / (p.g * p.M0 ^ 2 - p.ps / p.p0 + 1)) := by
-  simp only [epv_tree, epv_leaf, rhoNum, rhoDen]
-  rw [Real.tan_arctan, recomputed_mach _ _ _ hM (c2_pos hg hp hr), Real.rpow_two]
+  have hm := recomputed_mach p.M0 (p.g * p.p0 / p.r0) (p.theta0 / 180 * Real.pi) hM (c2_pos hg hp hr)
+  simp only [epv_tree, epv_leaf, rhoNum, rhoDen, Real.tan_arctan]
+  conv_rhs => rw [← hm]
+  epv_semi_su_eq
 
 /-- **C19, shocks**: the state `compression_states` returns for pressure `ps` behind the flow
 `state = (p0, r0, M0, theta0, g)` is the oblique-shock Rankine–Hugoniot state for the pressure
@@ -93,11 +101,14 @@ def expM2 (p : R2Exp.P) : ℝ :=
 
 theorem exp_rs (p : R2Exp.P) : R2Exp.rs p = p.r0 * (p.ps / p.p0) ^ (1 / p.g) := by
   simp only [epv_tree, epv_leaf]
+  epv_semi_su_eq
 
 theorem exp_Ms (p : R2Exp.P) (hg : 1 < p.g) (hp : 0 < p.p0) (hr : 0 < p.r0) (hM : 0 ≤ p.M0) :
     R2Exp.Ms p = Real.sqrt (expM2 p) := by
+  have hm := recomputed_mach p.M0 (p.g * p.p0 / p.r0) (p.theta0 / 180 * Real.pi) hM (c2_pos hg hp hr)
   simp only [epv_tree, epv_leaf, expM2]
-  rw [recomputed_mach _ _ _ hM (c2_pos hg hp hr), Real.rpow_two]
+  conv_rhs => rw [← hm]
+  epv_semi_su_eq
 
 /-- **C19, fans (isentrope)**: the state `expansion_states` returns for pressure `ps` lies on the
 isentrope through `state` and has the same total enthalpy. -/
@@ -125,8 +136,16 @@ theorem exp_isentropic_text (p : R2Exp.P) (hg : 1 < p.g) (hp : 0 < p.p0) (hr : 0
 between the end states -/
 theorem exp_turning_coded (p : R2Exp.P) (hg : 1 < p.g) (hp : 0 < p.p0) (hr : 0 < p.r0) (hM : 0 ≤ p.M0) :
     R2Exp.deflection p = R2PM.nu ⟨p.M0, p.g⟩ - R2PM.nu ⟨R2Exp.Ms p, p.g⟩ := by
-  simp only [epv_tree, epv_leaf]
-  rw [recomputed_mach _ _ _ hM (c2_pos hg hp hr)]
+  have hm := recomputed_mach p.M0 (p.g * p.p0 / p.r0) (p.theta0 / 180 * Real.pi) hM (c2_pos hg hp hr)
+  -- `nu ⟨M₀, γ⟩` with the recomputed Mach number (documented form) in place of M₀
+  have key : ∀ m : ℝ, m = p.M0 →
+      R2Exp.deflection p = R2PM.nu ⟨m, p.g⟩ - R2PM.nu ⟨R2Exp.Ms p, p.g⟩ := by
+    intro m hm'
+    rw [← hm] at hm'
+    subst hm'
+    simp only [epv_tree, epv_leaf]
+    epv_semi_su_eq
+  exact key _ rfl
 
 /-- non-vacuity (defaults of the solver: bottom state p=1, ρ=1, M=2.4, θ=0, γ=1.4; ps = 2 / 0.5) -/
 example : ∃ p : R2Comp.P, 1 < p.g ∧ 0 < p.p0 ∧ 0 < p.r0 ∧ 0 < p.ps ∧ 0 ≤ p.M0
@@ -157,6 +176,82 @@ theorem ReportedConsistent.speed {gB gT p ρ e M u v q : ℝ} (h : ReportedConsi
   refine ⟨γ, hγ, hc.speed_sq (by rcases hγ with rfl | rfl <;> assumption), ?_⟩
   rw [hq, Real.sq_sqrt (by positivity)]
 
+/-- introduction rule used by the `r2d_*_consistent` proofs: the gas first, the flow angle last -/
+theorem ReportedConsistent.of_angle {gB gT p ρ e M u v q : ℝ} (γ : ℝ) (hγ : γ = gB ∨ γ = gT)
+    (he : e = p / ρ / (γ - 1)) (hq : q = Real.sqrt (u ^ 2 + v ^ 2))
+    (h : ∃ φ : ℝ, u = Real.sqrt (γ * p / ρ) * M * Real.cos φ ∧ v = Real.sqrt (γ * p / ρ) * M * Real.sin φ) :
+    ReportedConsistent gB gT p ρ e M u v q := by
+  obtain ⟨φ, hu, hv⟩ := h
+  exact ⟨γ, φ, hγ, ⟨hu, hv⟩, he, hq⟩
+
+/-- the same, for velocity components written as one factor `K` times the cosine / sine of the flow angle -/
+theorem ReportedConsistent.of_factor {gB gT p ρ e M u v q : ℝ} (γ : ℝ) (hγ : γ = gB ∨ γ = gT)
+    (he : e = p / ρ / (γ - 1)) (hq : q = Real.sqrt (u ^ 2 + v ^ 2)) (K : ℝ)
+    (h : ∃ φ : ℝ, u = K * Real.cos φ ∧ v = K * Real.sin φ) (hK : K = Real.sqrt (γ * p / ρ) * M) :
+    ReportedConsistent gB gT p ρ e M u v q := by
+  subst hK
+  exact ReportedConsistent.of_angle γ hγ he hq h
+
+/-- the same term (no unfolding: a failing comparison of two large real terms must stay cheap) -/
+macro "r2d_same" : tactic => `(tactic| with_reducible rfl)
+
+/-- cheap comparison of a reported value with its documented form: the same term, or the same product of
+the same factors in another order, or the same after `a / b / c` ↦ `a / (b * c)` -/
+macro "r2d_fast" : tactic =>
+  `(tactic| first
+    | with_reducible rfl
+    | ring1
+    | (simp only [div_div]; first | with_reducible rfl | ring1))
+
+/-- comparison up to ring normalisation at every level (under the square roots too) -/
+macro "r2d_slow" : tactic =>
+  `(tactic| first
+    | (ring_nf; done)
+    | (epv_semi_su_pre; ring_nf; done)
+    -- `a / (b * (c - 1))` against `a / b / (c - 1)`: push the inverses inwards before `ring_nf` multiplies out
+    | ((try epv_semi_su_pre); epv_semi_inv_nf; ring_nf; done)
+    -- (a failing `done` at the end of a term-level `by` is logged, not thrown: end with a proper failure)
+    | fail "r2d_slow: the two sides differ")
+
+/-- one level down: `f A = f B` (e.g. `√(v² + u²) = √(u² + v²)`) with `A = B` the same polynomial in the same
+(possibly large) atoms -/
+macro "r2d_peel" : tactic => `(tactic| (congr 1 <;> first | with_reducible rfl | ring1))
+
+macro "r2d_cmp" : tactic => `(tactic| first | r2d_fast | r2d_peel | r2d_slow)
+
+/-- the flow angle of one reported state of the solver `p` at the point `(x, y)`, when the velocity is not
+literally `K * cos φ`: the slip-line direction, the direction of the bottom / top initial state, or the local
+direction inside the bottom / top fan — found by trying these documented candidates, compared up to
+normalisation -/
+macro "r2d_angle " p:term:max x:term:max y:term:max : tactic =>
+  `(tactic| first
+    | exact ⟨($p).cd_angle, by r2d_fast, by r2d_fast⟩
+    | exact ⟨($p).thetaB / 180 * (1 * Real.pi / 1), by r2d_fast, by r2d_fast⟩
+    | exact ⟨($p).thetaT / 180 * (1 * Real.pi / 1), by r2d_fast, by r2d_fast⟩
+    | exact ⟨($p).cd_angle, by r2d_slow, by r2d_slow⟩
+    | exact ⟨($p).thetaB / 180 * Real.pi, by r2d_slow, by r2d_slow⟩
+    | exact ⟨($p).thetaT / 180 * Real.pi, by r2d_slow, by r2d_slow⟩
+    | exact ⟨Real.arctan ($y / $x) - (($p).thetaB / 180 * Real.pi - Real.arcsin (1 / ($p).MB))
+        + ($p).thetaB / 180 * Real.pi, by r2d_slow, by r2d_slow⟩
+    | exact ⟨Real.arctan ($y / $x) - (($p).thetaT / 180 * Real.pi + Real.arcsin (1 / ($p).MT))
+        + ($p).thetaT / 180 * Real.pi, by r2d_slow, by r2d_slow⟩)
+
+/-- one reported state (after the case split on the traced conditions, with the `0 * x +` of the broadcast
+initial states removed): gas of the bottom or of the top side.  Cheap attempts first: the velocity is
+`K * cos φ`, `K * sin φ` for some traced angle `φ` and `K` is the product `√(γ p/ρ) · M` in some order. -/
+macro "r2d_state " p:term:max x:term:max y:term:max : tactic =>
+  `(tactic| first
+    | (refine ReportedConsistent.of_factor ($p).gB (Or.inl rfl) (by r2d_same) (by r2d_same) _
+        ⟨_, by r2d_same, by r2d_same⟩ (by r2d_fast))
+    | (refine ReportedConsistent.of_factor ($p).gT (Or.inr rfl) (by r2d_same) (by r2d_same) _
+        ⟨_, by r2d_same, by r2d_same⟩ (by r2d_fast))
+    | (refine ReportedConsistent.of_factor ($p).gB (Or.inl rfl) (by r2d_cmp) (by r2d_cmp) _
+        ⟨_, by r2d_same, by r2d_same⟩ (by r2d_cmp))
+    | (refine ReportedConsistent.of_factor ($p).gT (Or.inr rfl) (by r2d_cmp) (by r2d_cmp) _
+        ⟨_, by r2d_same, by r2d_same⟩ (by r2d_cmp))
+    | (refine ReportedConsistent.of_angle ($p).gB (Or.inl rfl) (by r2d_cmp) (by r2d_cmp) ?_; r2d_angle $p $x $y)
+    | (refine ReportedConsistent.of_angle ($p).gT (Or.inr rfl) (by r2d_cmp) (by r2d_cmp) ?_; r2d_angle $p $x $y))
+
 /-! #### wave pattern S-C-S -/
 
 theorem star_scs_slipline (p : R2StarSCS.P) :
@@ -164,7 +259,7 @@ theorem star_scs_slipline (p : R2StarSCS.P) :
       p.gT (R2StarSCS.pTs p) (R2StarSCS.rTs p) (R2StarSCS.MTs p) (R2StarSCS.uTs p) (R2StarSCS.vTs p) p.cd_angle := by
   unfold SlipLine Consistent
   dsimp only [epv_tree, epv_leaf]
-  exact ⟨rfl, ⟨rfl, rfl⟩, ⟨rfl, rfl⟩⟩
+  epv_semi_su_conj
 
 theorem star_scs_states (p : R2StarSCS.P) :
     R2StarSCS.pBs p = p.p_star ∧ R2StarSCS.pTs p = p.p_star ∧
@@ -173,13 +268,12 @@ theorem star_scs_states (p : R2StarSCS.P) :
     R2StarSCS.rTs p = R2Comp.rs ⟨p.MT, p.gT, p.pT, p.p_star, p.rT, p.thetaT⟩ ∧
     R2StarSCS.MTs p = R2Comp.Ms ⟨p.MT, p.gT, p.pT, p.p_star, p.rT, p.thetaT⟩ := by
   dsimp only [epv_tree, epv_leaf]
-  exact ⟨rfl, rfl, rfl, rfl, rfl, rfl⟩
+  epv_semi_su_conj
 
 theorem r2d_scs_consistent (p : R2dSCS.P) (x y : ℝ) :
     ReportedConsistent p.gB p.gT (R2dSCS.pressure p x y) (R2dSCS.density p x y)
       (R2dSCS.specific_internal_energy p x y) (R2dSCS.Mach p x y) (R2dSCS.x_velocity p x y)
       (R2dSCS.y_velocity p x y) (R2dSCS.speed p x y) := by
-  unfold ReportedConsistent Consistent
   unfold R2dSCS.pressure R2dSCS.density R2dSCS.specific_internal_energy R2dSCS.Mach R2dSCS.x_velocity
     R2dSCS.y_velocity R2dSCS.speed
   case_on (R2dSCS.c0 p x y) <;>
@@ -195,13 +289,8 @@ theorem r2d_scs_consistent (p : R2dSCS.P) (x y : ℝ) :
   case_on (R2dSCS.c10 p x y) <;>
   case_on (R2dSCS.c11 p x y) <;>
   dsimp only [epv_leaf] <;>
-    first
-    | exact ⟨p.gB, _, Or.inl rfl, ⟨rfl, rfl⟩, rfl, rfl⟩
-    | exact ⟨p.gT, _, Or.inr rfl, ⟨rfl, rfl⟩, rfl, rfl⟩
-    | (refine ⟨p.gB, p.thetaB / 180 * (1 * Real.pi / 1), Or.inl rfl, ⟨?_, ?_⟩, ?_, rfl⟩ <;>
-        simp only [zero_mul, zero_add])
-    | (refine ⟨p.gT, p.thetaT / 180 * (1 * Real.pi / 1), Or.inr rfl, ⟨?_, ?_⟩, ?_, rfl⟩ <;>
-        simp only [zero_mul, zero_add])
+  (try simp only [zero_mul, zero_add]) <;>
+    r2d_state p x y
 
 /-- every reported (pressure, density, Mach) is the bottom or the top initial state, or the image of
 that side's initial state under `compression_states` (bottom) /
@@ -230,8 +319,8 @@ theorem r2d_scs_states (p : R2dSCS.P) (x y : ℝ) :
     first
     | exact Or.inr (Or.inr (Or.inl ⟨rfl, rfl⟩))
     | exact Or.inr (Or.inr (Or.inr ⟨rfl, rfl⟩))
-    | exact Or.inl ⟨by simp only [zero_mul, zero_add], by simp only [zero_mul, zero_add], by simp only [zero_mul, zero_add]⟩
-    | exact Or.inr (Or.inl ⟨by simp only [zero_mul, zero_add], by simp only [zero_mul, zero_add], by simp only [zero_mul, zero_add]⟩)
+    | exact Or.inl ⟨by r2d_fast, by r2d_fast, by r2d_fast⟩
+    | exact Or.inr (Or.inl ⟨by r2d_fast, by r2d_fast, by r2d_fast⟩)
 
 /-! #### wave pattern S-C-R -/
 
@@ -240,7 +329,7 @@ theorem star_scr_slipline (p : R2StarSCR.P) :
       p.gT (R2StarSCR.pTs p) (R2StarSCR.rTs p) (R2StarSCR.MTs p) (R2StarSCR.uTs p) (R2StarSCR.vTs p) p.cd_angle := by
   unfold SlipLine Consistent
   dsimp only [epv_tree, epv_leaf]
-  exact ⟨rfl, ⟨rfl, rfl⟩, ⟨rfl, rfl⟩⟩
+  epv_semi_su_conj
 
 theorem star_scr_states (p : R2StarSCR.P) :
     R2StarSCR.pBs p = p.p_star ∧ R2StarSCR.pTs p = p.p_star ∧
@@ -249,13 +338,12 @@ theorem star_scr_states (p : R2StarSCR.P) :
     R2StarSCR.rTs p = R2Exp.rs ⟨p.MT, p.gT, p.pT, p.p_star, p.rT, p.thetaT⟩ ∧
     R2StarSCR.MTs p = R2Exp.Ms ⟨p.MT, p.gT, p.pT, p.p_star, p.rT, p.thetaT⟩ := by
   dsimp only [epv_tree, epv_leaf]
-  exact ⟨rfl, rfl, rfl, rfl, rfl, rfl⟩
+  epv_semi_su_conj
 
 theorem r2d_scr_consistent (p : R2dSCR.P) (x y : ℝ) :
     ReportedConsistent p.gB p.gT (R2dSCR.pressure p x y) (R2dSCR.density p x y)
       (R2dSCR.specific_internal_energy p x y) (R2dSCR.Mach p x y) (R2dSCR.x_velocity p x y)
       (R2dSCR.y_velocity p x y) (R2dSCR.speed p x y) := by
-  unfold ReportedConsistent Consistent
   unfold R2dSCR.pressure R2dSCR.density R2dSCR.specific_internal_energy R2dSCR.Mach R2dSCR.x_velocity
     R2dSCR.y_velocity R2dSCR.speed
   case_on (R2dSCR.c0 p x y) <;>
@@ -271,13 +359,8 @@ theorem r2d_scr_consistent (p : R2dSCR.P) (x y : ℝ) :
   case_on (R2dSCR.c10 p x y) <;>
   case_on (R2dSCR.c11 p x y) <;>
   dsimp only [epv_leaf] <;>
-    first
-    | exact ⟨p.gB, _, Or.inl rfl, ⟨rfl, rfl⟩, rfl, rfl⟩
-    | exact ⟨p.gT, _, Or.inr rfl, ⟨rfl, rfl⟩, rfl, rfl⟩
-    | (refine ⟨p.gB, p.thetaB / 180 * (1 * Real.pi / 1), Or.inl rfl, ⟨?_, ?_⟩, ?_, rfl⟩ <;>
-        simp only [zero_mul, zero_add])
-    | (refine ⟨p.gT, p.thetaT / 180 * (1 * Real.pi / 1), Or.inr rfl, ⟨?_, ?_⟩, ?_, rfl⟩ <;>
-        simp only [zero_mul, zero_add])
+  (try simp only [zero_mul, zero_add]) <;>
+    r2d_state p x y
 
 /-- every reported (pressure, density, Mach) is the bottom or the top initial state, or the image of
 that side's initial state under `compression_states` (bottom) /
@@ -306,8 +389,8 @@ theorem r2d_scr_states (p : R2dSCR.P) (x y : ℝ) :
     first
     | exact Or.inr (Or.inr (Or.inl ⟨rfl, rfl⟩))
     | exact Or.inr (Or.inr (Or.inr ⟨rfl, rfl⟩))
-    | exact Or.inl ⟨by simp only [zero_mul, zero_add], by simp only [zero_mul, zero_add], by simp only [zero_mul, zero_add]⟩
-    | exact Or.inr (Or.inl ⟨by simp only [zero_mul, zero_add], by simp only [zero_mul, zero_add], by simp only [zero_mul, zero_add]⟩)
+    | exact Or.inl ⟨by r2d_fast, by r2d_fast, by r2d_fast⟩
+    | exact Or.inr (Or.inl ⟨by r2d_fast, by r2d_fast, by r2d_fast⟩)
 
 /-! #### wave pattern R-C-S -/
 
@@ -316,7 +399,7 @@ theorem star_rcs_slipline (p : R2StarRCS.P) :
       p.gT (R2StarRCS.pTs p) (R2StarRCS.rTs p) (R2StarRCS.MTs p) (R2StarRCS.uTs p) (R2StarRCS.vTs p) p.cd_angle := by
   unfold SlipLine Consistent
   dsimp only [epv_tree, epv_leaf]
-  exact ⟨rfl, ⟨rfl, rfl⟩, ⟨rfl, rfl⟩⟩
+  epv_semi_su_conj
 
 theorem star_rcs_states (p : R2StarRCS.P) :
     R2StarRCS.pBs p = p.p_star ∧ R2StarRCS.pTs p = p.p_star ∧
@@ -325,13 +408,12 @@ theorem star_rcs_states (p : R2StarRCS.P) :
     R2StarRCS.rTs p = R2Comp.rs ⟨p.MT, p.gT, p.pT, p.p_star, p.rT, p.thetaT⟩ ∧
     R2StarRCS.MTs p = R2Comp.Ms ⟨p.MT, p.gT, p.pT, p.p_star, p.rT, p.thetaT⟩ := by
   dsimp only [epv_tree, epv_leaf]
-  exact ⟨rfl, rfl, rfl, rfl, rfl, rfl⟩
+  epv_semi_su_conj
 
 theorem r2d_rcs_consistent (p : R2dRCS.P) (x y : ℝ) :
     ReportedConsistent p.gB p.gT (R2dRCS.pressure p x y) (R2dRCS.density p x y)
       (R2dRCS.specific_internal_energy p x y) (R2dRCS.Mach p x y) (R2dRCS.x_velocity p x y)
       (R2dRCS.y_velocity p x y) (R2dRCS.speed p x y) := by
-  unfold ReportedConsistent Consistent
   unfold R2dRCS.pressure R2dRCS.density R2dRCS.specific_internal_energy R2dRCS.Mach R2dRCS.x_velocity
     R2dRCS.y_velocity R2dRCS.speed
   case_on (R2dRCS.c0 p x y) <;>
@@ -347,13 +429,8 @@ theorem r2d_rcs_consistent (p : R2dRCS.P) (x y : ℝ) :
   case_on (R2dRCS.c10 p x y) <;>
   case_on (R2dRCS.c11 p x y) <;>
   dsimp only [epv_leaf] <;>
-    first
-    | exact ⟨p.gB, _, Or.inl rfl, ⟨rfl, rfl⟩, rfl, rfl⟩
-    | exact ⟨p.gT, _, Or.inr rfl, ⟨rfl, rfl⟩, rfl, rfl⟩
-    | (refine ⟨p.gB, p.thetaB / 180 * (1 * Real.pi / 1), Or.inl rfl, ⟨?_, ?_⟩, ?_, rfl⟩ <;>
-        simp only [zero_mul, zero_add])
-    | (refine ⟨p.gT, p.thetaT / 180 * (1 * Real.pi / 1), Or.inr rfl, ⟨?_, ?_⟩, ?_, rfl⟩ <;>
-        simp only [zero_mul, zero_add])
+  (try simp only [zero_mul, zero_add]) <;>
+    r2d_state p x y
 
 /-- every reported (pressure, density, Mach) is the bottom or the top initial state, or the image of
 that side's initial state under `expansion_states` (bottom) /
@@ -382,8 +459,8 @@ theorem r2d_rcs_states (p : R2dRCS.P) (x y : ℝ) :
     first
     | exact Or.inr (Or.inr (Or.inl ⟨rfl, rfl⟩))
     | exact Or.inr (Or.inr (Or.inr ⟨rfl, rfl⟩))
-    | exact Or.inl ⟨by simp only [zero_mul, zero_add], by simp only [zero_mul, zero_add], by simp only [zero_mul, zero_add]⟩
-    | exact Or.inr (Or.inl ⟨by simp only [zero_mul, zero_add], by simp only [zero_mul, zero_add], by simp only [zero_mul, zero_add]⟩)
+    | exact Or.inl ⟨by r2d_fast, by r2d_fast, by r2d_fast⟩
+    | exact Or.inr (Or.inl ⟨by r2d_fast, by r2d_fast, by r2d_fast⟩)
 
 /-! #### wave pattern R-C-R -/
 
@@ -392,7 +469,7 @@ theorem star_rcr_slipline (p : R2StarRCR.P) :
       p.gT (R2StarRCR.pTs p) (R2StarRCR.rTs p) (R2StarRCR.MTs p) (R2StarRCR.uTs p) (R2StarRCR.vTs p) p.cd_angle := by
   unfold SlipLine Consistent
   dsimp only [epv_tree, epv_leaf]
-  exact ⟨rfl, ⟨rfl, rfl⟩, ⟨rfl, rfl⟩⟩
+  epv_semi_su_conj
 
 theorem star_rcr_states (p : R2StarRCR.P) :
     R2StarRCR.pBs p = p.p_star ∧ R2StarRCR.pTs p = p.p_star ∧
@@ -401,13 +478,12 @@ theorem star_rcr_states (p : R2StarRCR.P) :
     R2StarRCR.rTs p = R2Exp.rs ⟨p.MT, p.gT, p.pT, p.p_star, p.rT, p.thetaT⟩ ∧
     R2StarRCR.MTs p = R2Exp.Ms ⟨p.MT, p.gT, p.pT, p.p_star, p.rT, p.thetaT⟩ := by
   dsimp only [epv_tree, epv_leaf]
-  exact ⟨rfl, rfl, rfl, rfl, rfl, rfl⟩
+  epv_semi_su_conj
 
 theorem r2d_rcr_consistent (p : R2dRCR.P) (x y : ℝ) :
     ReportedConsistent p.gB p.gT (R2dRCR.pressure p x y) (R2dRCR.density p x y)
       (R2dRCR.specific_internal_energy p x y) (R2dRCR.Mach p x y) (R2dRCR.x_velocity p x y)
       (R2dRCR.y_velocity p x y) (R2dRCR.speed p x y) := by
-  unfold ReportedConsistent Consistent
   unfold R2dRCR.pressure R2dRCR.density R2dRCR.specific_internal_energy R2dRCR.Mach R2dRCR.x_velocity
     R2dRCR.y_velocity R2dRCR.speed
   case_on (R2dRCR.c0 p x y) <;>
@@ -423,13 +499,8 @@ theorem r2d_rcr_consistent (p : R2dRCR.P) (x y : ℝ) :
   case_on (R2dRCR.c10 p x y) <;>
   case_on (R2dRCR.c11 p x y) <;>
   dsimp only [epv_leaf] <;>
-    first
-    | exact ⟨p.gB, _, Or.inl rfl, ⟨rfl, rfl⟩, rfl, rfl⟩
-    | exact ⟨p.gT, _, Or.inr rfl, ⟨rfl, rfl⟩, rfl, rfl⟩
-    | (refine ⟨p.gB, p.thetaB / 180 * (1 * Real.pi / 1), Or.inl rfl, ⟨?_, ?_⟩, ?_, rfl⟩ <;>
-        simp only [zero_mul, zero_add])
-    | (refine ⟨p.gT, p.thetaT / 180 * (1 * Real.pi / 1), Or.inr rfl, ⟨?_, ?_⟩, ?_, rfl⟩ <;>
-        simp only [zero_mul, zero_add])
+  (try simp only [zero_mul, zero_add]) <;>
+    r2d_state p x y
 
 /-- every reported (pressure, density, Mach) is the bottom or the top initial state, or the image of
 that side's initial state under `expansion_states` (bottom) /
@@ -458,8 +529,8 @@ theorem r2d_rcr_states (p : R2dRCR.P) (x y : ℝ) :
     first
     | exact Or.inr (Or.inr (Or.inl ⟨rfl, rfl⟩))
     | exact Or.inr (Or.inr (Or.inr ⟨rfl, rfl⟩))
-    | exact Or.inl ⟨by simp only [zero_mul, zero_add], by simp only [zero_mul, zero_add], by simp only [zero_mul, zero_add]⟩
-    | exact Or.inr (Or.inl ⟨by simp only [zero_mul, zero_add], by simp only [zero_mul, zero_add], by simp only [zero_mul, zero_add]⟩)
+    | exact Or.inl ⟨by r2d_fast, by r2d_fast, by r2d_fast⟩
+    | exact Or.inr (Or.inl ⟨by r2d_fast, by r2d_fast, by r2d_fast⟩)
 
 end
 
